@@ -1,6 +1,8 @@
-//! Dispatch table: real crate function for each (fn, copy). Grown together with coq/extract/dispatch.ml.
+//! Dispatch table: real crate function for each (fn, copy). Mirrors coq/extract/dispatch.ml.
+#![allow(clippy::all)]
 use crate::{Arg, Out};
 use crystals_dilithium as cd;
+use cd::poly::Poly;
 
 fn int(a: &Arg) -> i128 {
     match a {
@@ -8,22 +10,575 @@ fn int(a: &Arg) -> i128 {
         _ => panic!("harness: expected int"),
     }
 }
+fn bytes(a: &Arg) -> &[u8] {
+    match a {
+        Arg::Bytes(v) => v,
+        _ => panic!("harness: expected bytes"),
+    }
+}
+fn ints(a: &Arg) -> &[i128] {
+    match a {
+        Arg::Ints(v) => v,
+        _ => panic!("harness: expected ints"),
+    }
+}
+fn i32s(a: &Arg) -> Option<Vec<i32>> {
+    ints(a).iter().map(|x| i32::try_from(*x).ok()).collect()
+}
+fn poly(a: &Arg) -> Option<Poly> {
+    let v = i32s(a)?;
+    if v.len() != 256 {
+        return None;
+    }
+    let mut p = Poly::default();
+    p.coeffs.copy_from_slice(&v);
+    Some(p)
+}
+fn opoly(p: &Poly) -> Out {
+    Out::Ints(p.coeffs.iter().map(|x| *x as i128).collect())
+}
+fn oint<T: Into<i128>>(v: T) -> Out {
+    Out::Int(v.into())
+}
+fn obytes(b: &[u8]) -> Out {
+    Out::Bytes(b.to_vec())
+}
+fn octx(a: &Arg) -> Option<&[u8]> {
+    match a {
+        Arg::Bytes(v) => Some(v),
+        _ => None,
+    }
+}
 
-pub fn dispatch(f: &str, _copy: &str, a: &[Arg]) -> Option<Vec<Out>> {
-    Some(match f {
-        // An argument that does not fit the Rust parameter type cannot be passed at all: "unknown".
-        "montgomery_reduce" => {
-            let v = i64::try_from(int(&a[0])).ok()?;
-            vec![Out::Int(cd::reduce::montgomery_reduce(v) as i128)]
+// ---------------------------------------------------------------- per polyvec level (lvl2, lvl3, lvl5)
+macro_rules! vec_level {
+    ($modname:ident, $pv:path, $K:expr, $L:expr) => {
+        mod $modname {
+            use super::*;
+            use $pv as pv;
+            pub const K: usize = $K;
+            pub const L: usize = $L;
+            pub fn veck(a: &Arg) -> Option<pv::Polyveck> {
+                let v = i32s(a)?;
+                if v.len() != K * 256 {
+                    return None;
+                }
+                let mut r = pv::Polyveck::default();
+                for i in 0..K {
+                    r.vec[i].coeffs.copy_from_slice(&v[i * 256..(i + 1) * 256]);
+                }
+                Some(r)
+            }
+            pub fn vecl(a: &Arg) -> Option<pv::Polyvecl> {
+                let v = i32s(a)?;
+                if v.len() != L * 256 {
+                    return None;
+                }
+                let mut r = pv::Polyvecl::default();
+                for i in 0..L {
+                    r.vec[i].coeffs.copy_from_slice(&v[i * 256..(i + 1) * 256]);
+                }
+                Some(r)
+            }
+            pub fn ok(v: &pv::Polyveck) -> Out {
+                Out::Ints(v.vec.iter().flat_map(|p| p.coeffs.iter().map(|x| *x as i128)).collect())
+            }
+            pub fn ol(v: &pv::Polyvecl) -> Out {
+                Out::Ints(v.vec.iter().flat_map(|p| p.coeffs.iter().map(|x| *x as i128)).collect())
+            }
+            pub fn dispatch(f: &str, a: &[Arg]) -> Option<Vec<Out>> {
+                Some(match f {
+                    "matrix_expand" => {
+                        let mut m = [pv::Polyvecl::default(); K];
+                        pv::matrix_expand(&mut m, bytes(&a[0]));
+                        vec![Out::Ints(m.iter().flat_map(|r| r.vec.iter().flat_map(|p| p.coeffs.iter().map(|x| *x as i128))).collect())]
+                    }
+                    "matrix_pointwise" => {
+                        let v = i32s(&a[0])?;
+                        if v.len() != K * L * 256 {
+                            return None;
+                        }
+                        let mut m = [pv::Polyvecl::default(); K];
+                        for i in 0..K {
+                            for j in 0..L {
+                                let o = (i * L + j) * 256;
+                                m[i].vec[j].coeffs.copy_from_slice(&v[o..o + 256]);
+                            }
+                        }
+                        let vv = vecl(&a[1])?;
+                        let mut t = pv::Polyveck::default();
+                        pv::matrix_pointwise_montgomery(&mut t, &m, &vv);
+                        vec![ok(&t)]
+                    }
+                    "l_pointwise_acc" => {
+                        let (u, v) = (vecl(&a[0])?, vecl(&a[1])?);
+                        let mut w = Poly::default();
+                        pv::l_pointwise_acc_montgomery(&mut w, &u, &v);
+                        vec![opoly(&w)]
+                    }
+                    "l_uniform_eta" => {
+                        let mut v = pv::Polyvecl::default();
+                        pv::l_uniform_eta(&mut v, bytes(&a[0]), u16::try_from(int(&a[1])).ok()?);
+                        vec![ol(&v)]
+                    }
+                    "k_uniform_eta" => {
+                        let mut v = pv::Polyveck::default();
+                        pv::k_uniform_eta(&mut v, bytes(&a[0]), u16::try_from(int(&a[1])).ok()?);
+                        vec![ok(&v)]
+                    }
+                    "l_uniform_gamma1" => {
+                        let mut v = pv::Polyvecl::default();
+                        pv::l_uniform_gamma1(&mut v, bytes(&a[0]), u16::try_from(int(&a[1])).ok()?);
+                        vec![ol(&v)]
+                    }
+                    "l_reduce" => { let mut v = vecl(&a[0])?; pv::l_reduce(&mut v); vec![ol(&v)] }
+                    "k_reduce" => { let mut v = veck(&a[0])?; pv::k_reduce(&mut v); vec![ok(&v)] }
+                    "k_caddq" => { let mut v = veck(&a[0])?; pv::k_caddq(&mut v); vec![ok(&v)] }
+                    "l_ntt" => { let mut v = vecl(&a[0])?; pv::l_ntt(&mut v); vec![ol(&v)] }
+                    "k_ntt" => { let mut v = veck(&a[0])?; pv::k_ntt(&mut v); vec![ok(&v)] }
+                    "l_invntt" => { let mut v = vecl(&a[0])?; pv::l_invntt_tomont(&mut v); vec![ol(&v)] }
+                    "k_invntt" => { let mut v = veck(&a[0])?; pv::k_invntt_tomont(&mut v); vec![ok(&v)] }
+                    "k_shiftl" => { let mut v = veck(&a[0])?; pv::k_shiftl(&mut v); vec![ok(&v)] }
+                    "l_add" => { let mut w = vecl(&a[0])?; let v = vecl(&a[1])?; pv::l_add(&mut w, &v); vec![ol(&w)] }
+                    "k_add" => { let mut w = veck(&a[0])?; let v = veck(&a[1])?; pv::k_add(&mut w, &v); vec![ok(&w)] }
+                    "k_sub" => { let mut w = veck(&a[0])?; let v = veck(&a[1])?; pv::k_sub(&mut w, &v); vec![ok(&w)] }
+                    "l_pointwise_poly" => {
+                        let p = poly(&a[0])?; let v = vecl(&a[1])?;
+                        let mut r = pv::Polyvecl::default();
+                        pv::l_pointwise_poly_montgomery(&mut r, &p, &v);
+                        vec![ol(&r)]
+                    }
+                    "k_pointwise_poly" => {
+                        let p = poly(&a[0])?; let v = veck(&a[1])?;
+                        let mut r = pv::Polyveck::default();
+                        pv::k_pointwise_poly_montgomery(&mut r, &p, &v);
+                        vec![ok(&r)]
+                    }
+                    "l_chknorm" => { let v = vecl(&a[0])?; vec![oint(pv::l_chknorm(&v, i32::try_from(int(&a[1])).ok()?))] }
+                    "k_chknorm" => { let v = veck(&a[0])?; vec![oint(pv::k_chknorm(&v, i32::try_from(int(&a[1])).ok()?))] }
+                    "k_power2round" => {
+                        let mut v1 = veck(&a[0])?; let mut v0 = veck(&a[1])?;
+                        pv::k_power2round(&mut v1, &mut v0);
+                        vec![ok(&v1), ok(&v0)]
+                    }
+                    "k_decompose" => {
+                        let mut v1 = veck(&a[0])?; let mut v0 = veck(&a[1])?;
+                        pv::k_decompose(&mut v1, &mut v0);
+                        vec![ok(&v1), ok(&v0)]
+                    }
+                    "k_make_hint" => {
+                        let v0 = veck(&a[0])?; let v1 = veck(&a[1])?;
+                        let mut h = pv::Polyveck::default();
+                        let s = pv::k_make_hint(&mut h, &v0, &v1);
+                        vec![ok(&h), oint(s)]
+                    }
+                    "k_use_hint" => { let mut x = veck(&a[0])?; let h = veck(&a[1])?; pv::k_use_hint(&mut x, &h); vec![ok(&x)] }
+                    "k_pack_w1" => {
+                        let mut r = bytes(&a[0]).to_vec(); let x = veck(&a[1])?;
+                        pv::k_pack_w1(&mut r, &x);
+                        vec![obytes(&r)]
+                    }
+                    _ => return None,
+                })
+            }
         }
-        "reduce32" => {
-            let v = i32::try_from(int(&a[0])).ok()?;
-            vec![Out::Int(cd::reduce::reduce32(v) as i128)]
+    };
+}
+vec_level!(v2, cd::polyvec::lvl2, 4, 4);
+vec_level!(v3, cd::polyvec::lvl3, 6, 5);
+vec_level!(v5, cd::polyvec::lvl5, 8, 7);
+
+// ---------------------------------------------------------------- per rounding level
+macro_rules! rounding_level {
+    ($f:expr, $a:expr, $m:path) => {{
+        use $m as r;
+        match $f {
+            "decompose" => { let (a0, a1) = r::decompose(i32::try_from(int(&$a[0])).ok()?); Some(vec![oint(a0), oint(a1)]) }
+            "make_hint" => Some(vec![oint(r::make_hint(i32::try_from(int(&$a[0])).ok()?, i32::try_from(int(&$a[1])).ok()?))]),
+            "use_hint" => Some(vec![oint(r::use_hint(i32::try_from(int(&$a[0])).ok()?, i32::try_from(int(&$a[1])).ok()?))]),
+            _ => None,
         }
-        "caddq" => {
-            let v = i32::try_from(int(&a[0])).ok()?;
-            vec![Out::Int(cd::reduce::caddq(v) as i128)]
+    }};
+}
+
+// ---------------------------------------------------------------- per poly set (6 copies)
+macro_rules! poly_set {
+    ($f:expr, $a:expr, $m:path, $scripted256:expr) => {{
+        use $m as p;
+        match $f {
+            "poly_decompose" => {
+                let mut a1 = poly(&$a[0])?; let mut a0 = Poly::default();
+                p::decompose(&mut a1, &mut a0);
+                Some(vec![opoly(&a1), opoly(&a0)])
+            }
+            "poly_make_hint" => {
+                let a0 = poly(&$a[0])?; let a1 = poly(&$a[1])?; let mut h = Poly::default();
+                let s = p::make_hint(&mut h, &a0, &a1);
+                Some(vec![opoly(&h), oint(s)])
+            }
+            "poly_use_hint" => { let mut x = poly(&$a[0])?; let h = poly(&$a[1])?; p::use_hint(&mut x, &h); Some(vec![opoly(&x)]) }
+            "poly_use_hint_ip" => { let mut x = poly(&$a[0])?; let h = poly(&$a[1])?; p::use_hint_ip(&mut x, &h); Some(vec![opoly(&x)]) }
+            "rej_eta" => {
+                let mut v = i32s(&$a[0])?;
+                let alen = usize::try_from(int(&$a[1])).ok()?;
+                let buf = bytes(&$a[2]);
+                let buflen = usize::try_from(int(&$a[3])).ok()?;
+                let c = p::rej_eta(&mut v, alen, buf, buflen);
+                Some(vec![Out::Ints(v.iter().map(|x| *x as i128).collect()), Out::Int(c as i128)])
+            }
+            "uniform_eta" => { let mut x = Poly::default(); p::uniform_eta(&mut x, bytes(&$a[0]), u16::try_from(int(&$a[1])).ok()?); Some(vec![opoly(&x)]) }
+            "uniform_eta_tap" => {
+                let mut x = Poly::default();
+                cd::verif_hooks::xof_script(Some(bytes(&$a[0]).to_vec()));
+                let r = std::panic::catch_unwind(std::panic::AssertUnwindSafe(|| p::uniform_eta(&mut x, &[0u8; 64], 0)));
+                cd::verif_hooks::xof_script(None);
+                if r.is_err() { panic!("tap") }
+                Some(vec![opoly(&x)])
+            }
+            "uniform_gamma1" => { let mut x = Poly::default(); p::uniform_gamma1(&mut x, bytes(&$a[0]), u16::try_from(int(&$a[1])).ok()?); Some(vec![opoly(&x)]) }
+            "challenge" => { let mut x = Poly::default(); p::challenge(&mut x, bytes(&$a[0])); Some(vec![opoly(&x)]) }
+            "challenge_tap" => {
+                let mut x = Poly::default();
+                cd::verif_hooks::xof_script(Some(bytes(&$a[0]).to_vec()));
+                let r = std::panic::catch_unwind(std::panic::AssertUnwindSafe(|| p::challenge(&mut x, &[0u8; 64])));
+                cd::verif_hooks::xof_script(None);
+                if r.is_err() { panic!("tap") }
+                Some(vec![opoly(&x)])
+            }
+            "eta_pack" => { let mut r = bytes(&$a[0]).to_vec(); let x = poly(&$a[1])?; p::eta_pack(&mut r, &x); Some(vec![obytes(&r)]) }
+            "eta_unpack" => { let mut x = Poly::default(); p::eta_unpack(&mut x, bytes(&$a[0])); Some(vec![opoly(&x)]) }
+            "z_pack" => { let mut r = bytes(&$a[0]).to_vec(); let x = poly(&$a[1])?; p::z_pack(&mut r, &x); Some(vec![obytes(&r)]) }
+            "z_unpack" => { let mut x = Poly::default(); p::z_unpack(&mut x, bytes(&$a[0])); Some(vec![opoly(&x)]) }
+            "w1_pack" => { let mut r = bytes(&$a[0]).to_vec(); let x = poly(&$a[1])?; p::w1_pack(&mut r, &x); Some(vec![obytes(&r)]) }
+            _ => None,
         }
-        _ => return None,
-    })
+    }};
+}
+
+// ---------------------------------------------------------------- per packing/sign/api set (6 copies)
+macro_rules! full_set {
+    ($modname:ident, $vl:ident, $pack:path, $sign:path, $par:path, $trbytes:expr) => {
+        mod $modname {
+            use super::*;
+            use super::$vl as vl;
+            use $pack as pk_;
+            use $sign as sg_;
+            use $par as par;
+            pub fn dispatch(f: &str, a: &[Arg]) -> Option<Vec<Out>> {
+                Some(match f {
+                    "pack_pk" => {
+                        let mut pk = bytes(&a[0]).to_vec(); let t1 = vl::veck(&a[2])?;
+                        pk_::pack_pk(&mut pk, bytes(&a[1]), &t1);
+                        vec![obytes(&pk)]
+                    }
+                    "unpack_pk" => {
+                        let mut rho = [0u8; 32]; let mut t1 = Default::default();
+                        pk_::unpack_pk(&mut rho, &mut t1, bytes(&a[0]));
+                        vec![obytes(&rho), vl::ok(&t1)]
+                    }
+                    "pack_sk" => {
+                        let mut sk = bytes(&a[0]).to_vec();
+                        let (t0, s1, s2) = (vl::veck(&a[4])?, vl::vecl(&a[5])?, vl::veck(&a[6])?);
+                        pk_::pack_sk(&mut sk, bytes(&a[1]), bytes(&a[2]), bytes(&a[3]), &t0, &s1, &s2);
+                        vec![obytes(&sk)]
+                    }
+                    "unpack_sk" => {
+                        let mut rho = [0u8; 32]; let mut tr = [0u8; $trbytes]; let mut key = [0u8; 32];
+                        let (mut t0, mut s1, mut s2) = (Default::default(), Default::default(), Default::default());
+                        pk_::unpack_sk(&mut rho, &mut tr, &mut key, &mut t0, &mut s1, &mut s2, bytes(&a[0]));
+                        vec![obytes(&rho), obytes(&tr), obytes(&key), vl::ok(&t0), vl::ol(&s1), vl::ok(&s2)]
+                    }
+                    "pack_sig" => {
+                        let mut sig = bytes(&a[0]).to_vec();
+                        let z = vl::vecl(&a[2])?; let h = vl::veck(&a[3])?;
+                        pk_::pack_sig(&mut sig, octx(&a[1]), &z, &h);
+                        vec![obytes(&sig)]
+                    }
+                    "unpack_sig" => {
+                        let mut c = vec![0u8; par::SIGNBYTES - vl::L * par::POLYZ_PACKEDBYTES - par::POLYVECH_PACKEDBYTES];
+                        let mut z = Default::default(); let mut h = vl::veck(&a[1])?;
+                        let ok = pk_::unpack_sig(&mut c, &mut z, &mut h, bytes(&a[0]));
+                        vec![obytes(&c), vl::ol(&z), vl::ok(&h), oint(ok as i32)]
+                    }
+                    "keypair" => {
+                        let mut pk = vec![0u8; par::PUBLICKEYBYTES]; let mut sk = vec![0u8; par::SECRETKEYBYTES];
+                        sg_::keypair(&mut pk, &mut sk, Some(bytes(&a[0])));
+                        vec![obytes(&pk), obytes(&sk)]
+                    }
+                    "keypair_rand" => {
+                        let mut pk = vec![0u8; par::PUBLICKEYBYTES]; let mut sk = vec![0u8; par::SECRETKEYBYTES];
+                        let tape = bytes(&a[0]).to_vec();
+                        let n = tape.len();
+                        cd::verif_hooks::rng_script(Some(tape));
+                        cd::verif_hooks::rng_take_log();
+                        let r = std::panic::catch_unwind(std::panic::AssertUnwindSafe(|| sg_::keypair(&mut pk, &mut sk, None)));
+                        cd::verif_hooks::rng_script(None);
+                        let used: usize = cd::verif_hooks::rng_take_log().iter().map(|x| x.len()).sum();
+                        if r.is_err() { panic!("keypair") }
+                        vec![obytes(&pk), obytes(&sk), oint((n - used) as i64)]
+                    }
+                    "signature" => {
+                        let mut sig = bytes(&a[0]).to_vec();
+                        let tape = bytes(&a[4]).to_vec();
+                        let n = tape.len();
+                        cd::verif_hooks::rng_script(Some(tape));
+                        cd::verif_hooks::rng_take_log();
+                        let r = std::panic::catch_unwind(std::panic::AssertUnwindSafe(||
+                            sg_::signature(&mut sig, bytes(&a[1]), bytes(&a[2]), int(&a[3]) != 0)));
+                        cd::verif_hooks::rng_script(None);
+                        let used: usize = cd::verif_hooks::rng_take_log().iter().map(|x| x.len()).sum();
+                        if r.is_err() { panic!("signature") }
+                        vec![obytes(&sig), oint((n - used) as i64)]
+                    }
+                    "verify" => vec![oint(sg_::verify(bytes(&a[0]), bytes(&a[1]), bytes(&a[2])) as i32)],
+                    _ => return None,
+                })
+            }
+        }
+    };
+}
+full_set!(s_lvl2, v2, cd::packing::lvl2, cd::sign::lvl2, cd::params::lvl2, 32);
+full_set!(s_lvl3, v3, cd::packing::lvl3, cd::sign::lvl3, cd::params::lvl3, 32);
+full_set!(s_lvl5, v5, cd::packing::lvl5, cd::sign::lvl5, cd::params::lvl5, 32);
+full_set!(s_ml44, v2, cd::packing::ml_dsa_44, cd::sign::ml_dsa_44, cd::params::ml_dsa_44, 64);
+full_set!(s_ml65, v3, cd::packing::ml_dsa_65, cd::sign::ml_dsa_65, cd::params::ml_dsa_65, 64);
+full_set!(s_ml87, v5, cd::packing::ml_dsa_87, cd::sign::ml_dsa_87, cd::params::ml_dsa_87, 64);
+
+// ---------------------------------------------------------------- containers and wrappers
+macro_rules! containers {
+    ($f:expr, $a:expr, $m:path) => {{
+        use $m as api;
+        match $f {
+            "sk_roundtrip" => Some(vec![obytes(&api::SecretKey::from_bytes(bytes(&$a[0])).to_bytes())]),
+            "pk_roundtrip" => Some(vec![obytes(&api::PublicKey::from_bytes(bytes(&$a[0])).to_bytes())]),
+            "kp_roundtrip" => {
+                let kp = api::Keypair::from_bytes(bytes(&$a[0]));
+                Some(vec![obytes(&kp.secret.to_bytes()), obytes(&kp.public.to_bytes()), obytes(&kp.to_bytes())])
+            }
+            "kp_generate" => {
+                let kp = api::Keypair::generate(Some(bytes(&$a[0])));
+                Some(vec![obytes(&kp.secret.to_bytes()), obytes(&kp.public.to_bytes()), obytes(&kp.to_bytes())])
+            }
+            "kp_generate_rand" => {
+                let tape = bytes(&$a[0]).to_vec();
+                let n = tape.len();
+                cd::verif_hooks::rng_script(Some(tape));
+                cd::verif_hooks::rng_take_log();
+                let r = std::panic::catch_unwind(std::panic::AssertUnwindSafe(|| api::Keypair::generate(None)));
+                cd::verif_hooks::rng_script(None);
+                let used: usize = cd::verif_hooks::rng_take_log().iter().map(|x| x.len()).sum();
+                match r {
+                    Ok(kp) => Some(vec![obytes(&kp.secret.to_bytes()), obytes(&kp.public.to_bytes()), oint((n - used) as i64)]),
+                    Err(_) => panic!("generate"),
+                }
+            }
+            _ => None,
+        }
+    }};
+}
+macro_rules! dil_api {
+    ($f:expr, $a:expr, $m:path) => {{
+        use $m as api;
+        match $f {
+            "api_sign" => {
+                let sk = api::SecretKey::from_bytes(bytes(&$a[0]));
+                Some(vec![obytes(&sk.sign(bytes(&$a[1])))])
+            }
+            "api_verify" => {
+                let pk = api::PublicKey::from_bytes(bytes(&$a[0]));
+                Some(vec![oint(pk.verify(bytes(&$a[1]), bytes(&$a[2])) as i32)])
+            }
+            _ => containers!($f, $a, $m),
+        }
+    }};
+}
+fn ph(a: &Arg) -> cd::PH {
+    if int(a) != 0 { cd::PH::SHA512 } else { cd::PH::SHA256 }
+}
+macro_rules! ml_api {
+    ($f:expr, $a:expr, $m:path) => {{
+        use $m as api;
+        match $f {
+            "ml_sign" | "ml_prehash_sign" => {
+                let sk = api::SecretKey::from_bytes(bytes(&$a[0]));
+                let pre = $f == "ml_prehash_sign";
+                let tape = bytes(&$a[if pre { 5 } else { 4 }]).to_vec();
+                let n = tape.len();
+                cd::verif_hooks::rng_script(Some(tape));
+                cd::verif_hooks::rng_take_log();
+                let r = std::panic::catch_unwind(std::panic::AssertUnwindSafe(|| {
+                    if pre {
+                        sk.prehash_sign(bytes(&$a[1]), octx(&$a[2]), int(&$a[3]) != 0, ph(&$a[4]))
+                    } else {
+                        sk.sign(bytes(&$a[1]), octx(&$a[2]), int(&$a[3]) != 0)
+                    }
+                }));
+                cd::verif_hooks::rng_script(None);
+                let used: usize = cd::verif_hooks::rng_take_log().iter().map(|x| x.len()).sum();
+                match r {
+                    Ok(Some(s)) => Some(vec![oint(1), obytes(&s), oint((n - used) as i64)]),
+                    Ok(None) => Some(vec![oint(0), obytes(&[]), oint((n - used) as i64)]),
+                    Err(_) => panic!("sign"),
+                }
+            }
+            "ml_verify" => {
+                let pk = api::PublicKey::from_bytes(bytes(&$a[0]));
+                Some(vec![oint(pk.verify(bytes(&$a[1]), bytes(&$a[2]), octx(&$a[3])) as i32)])
+            }
+            "ml_prehash_verify" => {
+                let pk = api::PublicKey::from_bytes(bytes(&$a[0]));
+                Some(vec![oint(pk.prehash_verify(bytes(&$a[1]), bytes(&$a[2]), octx(&$a[3]), ph(&$a[4])) as i32)])
+            }
+            _ => containers!($f, $a, $m),
+        }
+    }};
+}
+
+fn shake_hist(rate128: bool, a: &[Arg]) -> Option<Vec<Out>> {
+    use cd::fips202 as f;
+    let mut st = f::KeccakState::default();
+    let mut outs = Vec::new();
+    let mut i = 0;
+    while i < a.len() {
+        let op = int(&a[i]);
+        i += 1;
+        match op {
+            0 => { let b = bytes(&a[i]); i += 1; if rate128 { f::shake128_absorb(&mut st, b, b.len()) } else { f::shake256_absorb(&mut st, b, b.len()) } }
+            1 => { if rate128 { f::shake128_finalize(&mut st) } else { f::shake256_finalize(&mut st) } }
+            2 => {
+                if rate128 { return None; }
+                let n = usize::try_from(int(&a[i])).ok()?; i += 1;
+                let mut o = vec![0u8; n];
+                f::shake256_squeeze(&mut o, n, &mut st);
+                outs.push(Out::Bytes(o));
+            }
+            3 => {
+                let n = usize::try_from(int(&a[i])).ok()?; i += 1;
+                let rate = if rate128 { f::SHAKE128_RATE } else { f::SHAKE256_RATE };
+                let mut o = vec![0u8; n * rate];
+                if rate128 { f::shake128_squeezeblocks(&mut o, n, &mut st) } else { f::shake256_squeezeblocks(&mut o, n, &mut st) }
+                outs.push(Out::Bytes(o));
+            }
+            4 => { if rate128 { return None; } let b = bytes(&a[i]); i += 1; f::shake256_absorb_once(&mut st, b, b.len()); }
+            5 => st.init(),
+            6 => {
+                let seed = bytes(&a[i]); let nonce = u16::try_from(int(&a[i + 1])).ok()?; i += 2;
+                if rate128 { f::shake128_stream_init(&mut st, seed, nonce) } else { f::shake256_stream_init(&mut st, seed, nonce) }
+            }
+            _ => return None,
+        }
+    }
+    Some(outs)
+}
+
+pub fn dispatch(f: &str, copy: &str, a: &[Arg]) -> Option<Vec<Out>> {
+    // An argument that does not fit the Rust parameter type cannot be passed at all: "unknown".
+    let r = match f {
+        "montgomery_reduce" => Some(vec![oint(cd::reduce::montgomery_reduce(i64::try_from(int(&a[0])).ok()?))]),
+        "reduce32" => Some(vec![oint(cd::reduce::reduce32(i32::try_from(int(&a[0])).ok()?))]),
+        "caddq" => Some(vec![oint(cd::reduce::caddq(i32::try_from(int(&a[0])).ok()?))]),
+        "power2round" => { let (a0, a1) = cd::rounding::power2round(i32::try_from(int(&a[0])).ok()?); Some(vec![oint(a0), oint(a1)]) }
+        "decompose" | "make_hint" | "use_hint" => match copy {
+            "lvl2" => rounding_level!(f, a, cd::rounding::lvl2),
+            "lvl3" => rounding_level!(f, a, cd::rounding::lvl3),
+            "lvl5" => rounding_level!(f, a, cd::rounding::lvl5),
+            _ => None,
+        },
+        "ntt_ntt" => { let mut v = i32s(&a[0])?; if v.len() != 256 { return None; } cd::ntt::ntt(&mut v); Some(vec![Out::Ints(v.iter().map(|x| *x as i128).collect())]) }
+        "ntt_invntt" => { let mut v = i32s(&a[0])?; if v.len() != 256 { return None; } cd::ntt::invntt_tomont(&mut v); Some(vec![Out::Ints(v.iter().map(|x| *x as i128).collect())]) }
+        "poly_ntt" => { let mut p = poly(&a[0])?; cd::poly::ntt(&mut p); Some(vec![opoly(&p)]) }
+        "poly_invntt" => { let mut p = poly(&a[0])?; cd::poly::invntt_tomont(&mut p); Some(vec![opoly(&p)]) }
+        "poly_reduce" => { let mut p = poly(&a[0])?; cd::poly::reduce(&mut p); Some(vec![opoly(&p)]) }
+        "poly_caddq" => { let mut p = poly(&a[0])?; cd::poly::caddq(&mut p); Some(vec![opoly(&p)]) }
+        "poly_add" => { let (x, y) = (poly(&a[0])?, poly(&a[1])?); Some(vec![opoly(&cd::poly::add(&x, &y))]) }
+        "poly_add_ip" => { let (mut x, y) = (poly(&a[0])?, poly(&a[1])?); cd::poly::add_ip(&mut x, &y); Some(vec![opoly(&x)]) }
+        "poly_sub" => { let (x, y) = (poly(&a[0])?, poly(&a[1])?); Some(vec![opoly(&cd::poly::sub(&x, &y))]) }
+        "poly_sub_ip" => { let (mut x, y) = (poly(&a[0])?, poly(&a[1])?); cd::poly::sub_ip(&mut x, &y); Some(vec![opoly(&x)]) }
+        "poly_shiftl" => { let mut p = poly(&a[0])?; cd::poly::shiftl(&mut p); Some(vec![opoly(&p)]) }
+        "poly_pointwise" => { let (x, y) = (poly(&a[0])?, poly(&a[1])?); let mut c = Poly::default(); cd::poly::pointwise_montgomery(&mut c, &x, &y); Some(vec![opoly(&c)]) }
+        "poly_power2round" => { let mut a1 = poly(&a[0])?; let mut a0 = Poly::default(); cd::poly::power2round(&mut a1, &mut a0); Some(vec![opoly(&a1), opoly(&a0)]) }
+        "chknorm" => { let p = poly(&a[0])?; Some(vec![oint(cd::poly::chknorm(&p, i32::try_from(int(&a[1])).ok()?))]) }
+        "rej_uniform" => {
+            let mut v = i32s(&a[0])?;
+            let alen = usize::try_from(int(&a[1])).ok()?;
+            let buflen = usize::try_from(int(&a[3])).ok()?;
+            let c = cd::poly::rej_uniform(&mut v, alen, bytes(&a[2]), buflen);
+            Some(vec![Out::Ints(v.iter().map(|x| *x as i128).collect()), Out::Int(c as i128)])
+        }
+        "uniform" => { let mut p = Poly::default(); cd::poly::uniform(&mut p, bytes(&a[0]), u16::try_from(int(&a[1])).ok()?); Some(vec![opoly(&p)]) }
+        "uniform_tap" => {
+            let mut p = Poly::default();
+            cd::verif_hooks::xof_script(Some(bytes(&a[0]).to_vec()));
+            let r = std::panic::catch_unwind(std::panic::AssertUnwindSafe(|| cd::poly::uniform(&mut p, &[0u8; 32], 0)));
+            cd::verif_hooks::xof_script(None);
+            if r.is_err() { panic!("tap") }
+            Some(vec![opoly(&p)])
+        }
+        "t1_pack" => { let mut r = bytes(&a[0]).to_vec(); let p = poly(&a[1])?; cd::poly::t1_pack(&mut r, &p); Some(vec![obytes(&r)]) }
+        "t1_unpack" => { let mut p = Poly::default(); cd::poly::t1_unpack(&mut p, bytes(&a[0])); Some(vec![opoly(&p)]) }
+        "t0_pack" => { let mut r = bytes(&a[0]).to_vec(); let p = poly(&a[1])?; cd::poly::t0_pack(&mut r, &p); Some(vec![obytes(&r)]) }
+        "t0_unpack" => { let mut p = Poly::default(); cd::poly::t0_unpack(&mut p, bytes(&a[0])); Some(vec![opoly(&p)]) }
+        "shake256" => {
+            let n = usize::try_from(int(&a[0])).ok()?;
+            let mut o = vec![0u8; n];
+            let inp = bytes(&a[1]);
+            cd::fips202::shake256(&mut o, n, inp, inp.len());
+            Some(vec![obytes(&o)])
+        }
+        "shake256_hist" => shake_hist(false, a),
+        "shake128_hist" => shake_hist(true, a),
+        "keccakf" => {
+            let v = ints(&a[0]);
+            let mut s: Vec<u64> = Vec::new();
+            for x in v { s.push(u64::try_from(*x).ok()?); }
+            cd::fips202::keccakf1600_statepermute(&mut s);
+            Some(vec![Out::Ints(s.iter().map(|x| *x as i128).collect())])
+        }
+        _ => None,
+    };
+    if r.is_some() {
+        return r;
+    }
+    let r = match copy {
+        "lvl2" => poly_set!(f, a, cd::poly::lvl2, ()),
+        "lvl3" => poly_set!(f, a, cd::poly::lvl3, ()),
+        "lvl5" => poly_set!(f, a, cd::poly::lvl5, ()),
+        "ml_dsa_44" => poly_set!(f, a, cd::poly::ml_dsa_44, ()),
+        "ml_dsa_65" => poly_set!(f, a, cd::poly::ml_dsa_65, ()),
+        "ml_dsa_87" => poly_set!(f, a, cd::poly::ml_dsa_87, ()),
+        _ => None,
+    };
+    if r.is_some() {
+        return r;
+    }
+    let r = match copy {
+        "lvl2" => v2::dispatch(f, a),
+        "lvl3" => v3::dispatch(f, a),
+        "lvl5" => v5::dispatch(f, a),
+        _ => None,
+    };
+    if r.is_some() {
+        return r;
+    }
+    let r = match copy {
+        "lvl2" => s_lvl2::dispatch(f, a),
+        "lvl3" => s_lvl3::dispatch(f, a),
+        "lvl5" => s_lvl5::dispatch(f, a),
+        "ml_dsa_44" => s_ml44::dispatch(f, a),
+        "ml_dsa_65" => s_ml65::dispatch(f, a),
+        "ml_dsa_87" => s_ml87::dispatch(f, a),
+        _ => None,
+    };
+    if r.is_some() {
+        return r;
+    }
+    match copy {
+        "dilithium2" => dil_api!(f, a, cd::dilithium2),
+        "dilithium3" => dil_api!(f, a, cd::dilithium3),
+        "dilithium5" => dil_api!(f, a, cd::dilithium5),
+        "ml_dsa_44" => ml_api!(f, a, cd::ml_dsa_44),
+        "ml_dsa_65" => ml_api!(f, a, cd::ml_dsa_65),
+        "ml_dsa_87" => ml_api!(f, a, cd::ml_dsa_87),
+        _ => None,
+    }
 }
